@@ -45,6 +45,9 @@ def translation_units(tier):
     tus = []
     for p in sorted(glob.glob(os.path.join(VERIF, "inst", "*.cpp"))):
         tus.append(("inst/" + os.path.basename(p), p, []))
+    if tier == "thorough":
+        for p in sorted(glob.glob(os.path.join(VERIF, "inst", "thorough", "*.cpp"))):
+            tus.append(("inst/thorough/" + os.path.basename(p), p, []))
     gt = ["-isystem", os.path.join(REPO, "3rdParty/gtest/googletest/include"),
           "-isystem", os.path.join(REPO, "3rdParty/gtest/googletest")]
     for p in sorted(glob.glob(os.path.join(REPO, "test", "**", "*.cpp"), recursive=True)):
